@@ -11,6 +11,7 @@ import json
 import multiprocessing
 import os
 import pathlib
+import pickle
 import threading
 import time
 import typing
@@ -96,7 +97,37 @@ def build_registry(base: str) -> str:
         instance = asset.Instance(name, version, None, directory)
         dask.Runner(instance, sa.Feed(const=const), null.Sink(), scheduler='synchronous').train()
     (base / 'READY').write_text('ok')
+    preheat(str(path))
     return str(path)
+
+
+def preheat(registry_path: str) -> None:
+    """Exercise, in the calling (main) thread, every lazily importing code path the engine will later run in its
+    threads: the engine forks helper processes (manager servers, encoder pool) while its thread pool is busy, and a
+    module import lock held by another thread at fork time is never released in the child. Doing the first-time imports
+    up front keeps that (environmental) deadlock out of the measurements; the watchdog in ``Session.fire`` covers the
+    rest."""
+    from forml.io import dsl  # pylint: disable=import-outside-toplevel
+
+    rows = [{'rid': 1, 'x': 2, 'delay': 0}]
+    for encoding, body in (
+        ('application/json', json.dumps(rows)),
+        ('application/json', json.dumps({'instances': rows})),
+        ('text/csv', 'rid,x,delay\n1,2,0\n'),
+    ):
+        layout.get_decoder(layout.Encoding.parse(encoding)[0]).loads(body.encode())
+    schema = dsl.Schema.from_fields(dsl.Field(dsl.Integer(), name='c0'), dsl.Field(dsl.Integer(), name='c1'))
+    outcome = layout.Outcome(schema, [(1, 2)])
+    for accept in ACCEPT.values():
+        layout.get_encoder(*layout.Encoding.parse(accept)).dumps(outcome)
+    directory = asset.Directory(posix.Registry(registry_path))
+    feeds = io.Importer(sa.Feed())
+    for key in CONSTANT:
+        project, release, generation = key.split('/')
+        instance = asset.Instance(project, release, int(generation), directory)
+        _ = instance.tag
+        feeds.match(instance.project.source.extract.apply)
+    pickle.dumps(descriptors())
 
 
 # ---- request rendering / response decoding -------------------------------------------------------------------------
@@ -216,9 +247,18 @@ class Session:
         )
         self.closed = False
         self.broken = False
+        self.aborted = False
         self.warmed = False
         self._closer: typing.Optional[threading.Thread] = None
         SESSIONS.append(self)
+
+    def processes(self) -> set:
+        """Processes started since this session was created that no other (closing) session has claimed."""
+        others = set()
+        for other in SESSIONS:
+            if other is not self:
+                others |= other.mine
+        return _children() - self.before - others
 
     # ---- firing ----------------------------------------------------------------------------------------------------
     def fire(self, spec: dict, timeout: float) -> list:
@@ -262,10 +302,31 @@ class Session:
                 pass
             return out
 
+        # hard deadline: the engine calls into its model pools synchronously on the loop thread (manager proxies); if
+        # such a call never returns, the soft deadline above cannot fire. The watchdog then kills the processes of this
+        # engine, which unblocks the loop thread, and the whole batch counts as not completed.
+        aborted = threading.Event()
+
+        def abort():
+            aborted.set()
+            self.broken = True
+            _kill(self.processes())
+
+        watchdog = threading.Timer(timeout + 25.0, abort)
+        watchdog.daemon = True
+        watchdog.start()
         try:
             raw = self.loop.run_until_complete(batch())
+        except Exception:  # pylint: disable=broad-except
+            if not aborted.is_set():
+                raise
+            raw = []
         finally:
+            watchdog.cancel()
             self.inventory.pause_list = self.inventory.pause_get = 0.0
+        if aborted.is_set():
+            self.aborted = True
+            return [('timeout',)] * len(prepared)
         out = []
         for item in raw:
             if item[0] == 'ok':
@@ -288,8 +349,7 @@ class Session:
         if self.closed:
             return
         self.closed = True
-        others = set().union(*[s.mine for s in SESSIONS if s is not self]) if len(SESSIONS) > 1 else set()
-        self.mine = _children() - self.before - others
+        self.mine = self.processes()
 
         def work():
             done = threading.Event()
